@@ -1429,7 +1429,7 @@ func (r *Run) LoopNoEarlyExit(fnName, coll, why string) {
 	file, line := r.P.FnPos(fn)
 	construct := "loop over " + coll + " visits every element"
 	// slice range loops: header = block whose If compares (iter+1) < len(coll)
-	want := "lt((iter+1),len(" + coll + "))"
+	want := "lt(iter,len(" + coll + "))"
 	for _, b := range fn.Blocks {
 		ifi, ok := lastInstr(b).(*ssa.If)
 		if !ok || env.condOf(ifi.Cond).String() != want {
@@ -1631,7 +1631,7 @@ func (r *Run) ReturnOnlyUnder(fnName, ret, cond, why string) {
 // sliceLoop finds the natural loop of the `for … range coll` over a slice with canonical path coll.
 func (r *Run) sliceLoop(fn *ssa.Function, coll string) (*ssa.BasicBlock, map[*ssa.BasicBlock]bool) {
 	env := r.P.Env(fn)
-	want := "lt((iter+1),len(" + coll + "))"
+	want := "lt(iter,len(" + coll + "))"
 	for _, b := range fn.Blocks {
 		ifi, ok := lastInstr(b).(*ssa.If)
 		if !ok || env.condOf(ifi.Cond).String() != want {
